@@ -117,7 +117,48 @@ func checkC03(c *Check) {
 		}
 		Ls[ep.Name()] = L
 		if nacc == 0 {
-			c.Unk("S2 one-critical-section", "sessionTracker."+ep.Name(), p.Pos(ep.Pos()), "entry point performs no shared access: cone not understood")
+			// an accessor that touches no shared state: every field of the
+			// tracker it reads is set once, when the tracker is built
+			constOnly := true
+			what := ""
+			for f := range w.Visited {
+				_ = f
+			}
+			allInstrs(ep, func(in ssa.Instruction) {
+				fa, ok := in.(*ssa.FieldAddr)
+				if !ok {
+					return
+				}
+				nt := namedOf(fa.X.Type())
+				if nt == nil || nt.Obj() != named.Obj() {
+					return
+				}
+				if !p.fieldOnlyInitialised(nt, fa.Field) {
+					constOnly = false
+					what = fieldName(fa.X.Type(), fa.Field)
+				}
+				// a field that refers to shared mutable state (a map, a
+				// pointer, a slice, a channel, an interface) hands that state
+				// out: not a plain accessor
+				if ft := deref(fa.Type()); ft != nil {
+					if !plainValueType(ft, 0) {
+						constOnly = false
+						what = fieldName(fa.X.Type(), fa.Field) + " (refers to shared state)"
+					}
+				}
+			})
+			hasCalls := false
+			for _, ci := range callsIn(ep) {
+				if sc := staticCallee(ci.Common()); sc != nil && InRepo(sc) {
+					hasCalls = true
+				}
+			}
+			if constOnly && !hasCalls {
+				c.OK("S2 one-critical-section", "sessionTracker."+ep.Name(), p.Pos(ep.Pos()), "read-only accessor of fields fixed at construction: no shared state touched, no lock needed")
+				delete(Ls, ep.Name())
+				continue
+			}
+			c.Unk("S2 one-critical-section", "sessionTracker."+ep.Name(), p.Pos(ep.Pos()), "entry point performs no recognised shared access but reads "+what+" or calls repository code: cone not understood")
 			continue
 		}
 		for _, e := range evs {
@@ -672,4 +713,30 @@ func loginEventReadOnly(c *Check) {
 	_ = refType
 	c.OK("S7 login-event-read-only", "correlator packages processors/auditd/... and internal/common", "-", fmt.Sprintf("%d functions scanned, %d read(s) through RemoteUserLogin.Source, no write", nfn, nread))
 	c.Floor("reads through RemoteUserLogin.Source in the correlator (the rule has something to look at)", 1, nread)
+}
+
+
+// plainValueType: values of the type carry no reference to mutable state
+// (basic types, and structs/arrays of such; time.Time counts as plain).
+func plainValueType(t types.Type, depth int) bool {
+	if depth > 4 {
+		return false
+	}
+	if typeName(t) == "time.Time" || typeName(t) == "time.Duration" {
+		return true
+	}
+	switch u := t.Underlying().(type) {
+	case *types.Basic:
+		return u.Kind() != types.UnsafePointer
+	case *types.Struct:
+		for i := 0; i < u.NumFields(); i++ {
+			if !plainValueType(u.Field(i).Type(), depth+1) {
+				return false
+			}
+		}
+		return true
+	case *types.Array:
+		return plainValueType(u.Elem(), depth+1)
+	}
+	return false
 }
